@@ -38,7 +38,12 @@ class LineCurve(AnalyticCurve):
         self.point_1 = Point(point_1)
         self.point_2 = Point(point_2)
 
-        super().__init__(lambda t: self.point_1.position + self.vector * t, bounds)
+        # a bound method (not a lambda closing over self): copy.deepcopy re-binds it to the copy,
+        # whereas a closure would keep reading the original's points
+        super().__init__(self._get_point, bounds)
+
+    def _get_point(self, param: float):
+        return self.point_1.position + self.vector * param
 
     @property
     def vector(self) -> NPVectorType:
@@ -71,7 +76,11 @@ class CircleCurve(AnalyticCurve):
         normal = f.unit_vector(normal)
         self.atop = Point(origin + normal)
 
-        super().__init__(lambda t: f.rotate(self.rim.position, t, self.normal, self.origin.position), bounds)
+        # a bound method (not a lambda closing over self), see LineCurve
+        super().__init__(self._get_point, bounds)
+
+    def _get_point(self, param: float):
+        return f.rotate(self.rim.position, param, self.normal, self.origin.position)
 
     @property
     def normal(self) -> NPVectorType:
